@@ -807,3 +807,29 @@ Example ex_auth_limited_top_keeps_base :
   /\ flat_map s_ids (flat_map snd (select_layers_auth true (fun k => if k =? 3 then 1 else 0) [ex_w_base; ex_w_top])) = [1; 3]
   /\ flat_map s_ids (flat_map snd (select_layers_auth true (fun _ => 0) [ex_w_base; ex_w_top])) = [2; 3].
 Proof. vm_compute. auto. Qed.
+
+(* ------------------------------------------------------------------ request beyond the SRS extent *)
+
+(* inside the extent the answer shows the pixel of the image merged for the sub query, outside it is transparent *)
+Lemma sub_image_source_inside : forall o sub placement i k,
+  nth_error placement i = Some (Some k) -> (k < length (view sub))%nat ->
+  exists p, nth_error (im_px (sub_image_source o sub placement)) i = Some p /\ nth_error (view sub) k = Some p.
+Proof.
+  intros o sub placement i k H K. unfold sub_image_source. cbn [im_px].
+  eexists. split.
+  - erewrite map_nth_error by exact H. reflexivity.
+  - apply nth_error_nth'. exact K.
+Qed.
+
+Lemma sub_image_source_outside : forall o sub placement i,
+  ro_mode o <> Some M_RGB -> ro_mode o <> Some M_L ->
+  nth_error placement i = Some None ->
+  exists p, nth_error (im_px (sub_image_source o sub placement)) i = Some p /\ px_a p = 0.
+Proof.
+  intros o sub placement i N1 N2 H. unfold sub_image_source. cbn [im_px].
+  eexists. split.
+  - erewrite map_nth_error by exact H. reflexivity.
+  - unfold create_px, create_mode. cbn [ro_mode ro_transparent ro_bgcolor truthy].
+    destruct (match ro_bgcolor o with Some c => c | None => (255, 255, 255) end) as [[r g] b].
+    destruct (ro_mode o) as [[]|]; try reflexivity; congruence.
+Qed.
